@@ -8,8 +8,19 @@ U = ("C02", "C08", "C12", "C15", "C17", "C20", "C10")
 def apply(ctx, W):
     # ---- callees (trusted contracts for now)
     g = W.file("grammar.rs")
-    fn_into_verus(ctx, g, "Attributes::doc", mode="T", ret="r", tags=("C17",),
-                  ensures=["r is Ok ==> opt_string_view(r->Ok_0) == spec_doc(self.0@)"])
+    # Attributes::doc: verified against the property's "line for line and in order" (spec_doc is the join of
+    # the doc lines with newlines, written from the property text, not from the code)
+    fd, ud = fn_into_verus(ctx, g, "Attributes::doc", ret="r", tags=("C17", "C12"), ensures=[
+        ("r is Ok ==> opt_string_view(r->Ok_0) == spec_doc(self.0@)", ("C17",), "doc-lines-joined-in-order"),
+        ("r is Ok ==> forall|k: int| 0 <= k < self.0@.len() ==> !doc_bad(#[trigger] self.0@[k])", ("C17",), "doc-non-string-rejected"),
+    ])
+    ld = rules.loop_by_header(g, fd, "self.0")
+    rules.for_to_index_loop(ctx, g, ud, ld, seq="self.0", ivar="i_d")
+    rules.index_loop_spec(ctx, g, ud, ld, tags=("C17",), invariants=[
+        ("opt_string_view(doc) == spec_doc_upto(self.0@, i_d as int)", ("C17",)),
+        ("forall|k: int| 0 <= k < i_d ==> !doc_bad(#[trigger] self.0@[k])", ("C17",)),
+    ])
+    ghost(ctx, g, ud, body_start(ld), 'proof { reveal_strlit("doc"); }')
     ty = W.file("semantic/types.rs")
     rules.from_impl_into_verus(ctx, ty, "EnumDefinition", "ItemDefinitionInner", "ItemDefinitionInner::Enum(v)", tags=("C08",))
     rules.from_impl_into_verus(ctx, ty, "TypeDefinition", "ItemDefinitionInner", "ItemDefinitionInner::Type(v)", tags=("C01", "C02"))
